@@ -4,7 +4,8 @@
    trained models are handed back to brew.  The theorems say that the results do not depend on them.
    Statements only; proofs in the files of the owning models. *)
 From Coq Require Import Permutation.
-From Mokaverif Require Import Model.Base Model.Orders Model.Grouping Proofs.OrdersP Proofs.GroupingP.
+From Mokaverif Require Import Model.Base Model.Orders Model.Grouping Model.MatchDecoy
+  Proofs.OrdersP Proofs.GroupingP Proofs.MatchDecoyP.
 Open Scope nat_scope.
 
 (* models fed back in any order (or delivered by worker threads in any order) are used in fold order *)
@@ -44,3 +45,34 @@ Example C08_example :
   or_sort_models [(3, 30); (1, 10); (2, 20)] = [(1, 10); (2, 20); (3, 30)] /\
   or_parse nat 2 (fun l => rev l) [3;0;4] [10;11;12;13;14] = or_parse nat 5 (fun l => l) [3;0;4] [10;11;12;13;14].
 Proof. vm_compute. split; reflexivity. Qed.
+
+(* target-only FASTA: peptides.match_decoy receives the keys of peptide_map, whose order goes back to set iteration
+   (PYTHONHASHSEED).  It sorts them before the seeded shuffle (/repo 9b4fbd9), so with the same shuffle (the same rng:
+   the recorded positions perm) the answer does not depend on the order they arrive in — duplicates or not *)
+Theorem C08_match_decoy_order_independent : forall im perm ds ts1 ts2,
+  Permutation ts1 ts2 -> md_match im perm ds ts1 = md_match im perm ds ts2.
+Proof. exact md_match_order_independent. Qed.
+Print Assumptions C08_match_decoy_order_independent.
+
+(* what the sorting buys: a sorted list is a function of the multiset *)
+Theorem C08_match_decoy_sort_canonical : forall ts1 ts2,
+  Permutation ts1 ts2 -> md_sort_strs ts1 = md_sort_strs ts2.
+Proof. exact md_sort_strs_perm_eq. Qed.
+Print Assumptions C08_match_decoy_sort_canonical.
+
+(* without the sorting step (the code before 9b4fbd9) the statement is false: two anagram targets *)
+Theorem C08_match_decoy_unsorted_refuted :
+  exists im perm ds ts1 ts2,
+    Permutation ts1 ts2 /\ NoDup ts1 /\ Permutation perm (seq 0 (length ts1)) /\
+    md_match_unsorted im perm ds ts1 <> md_match_unsorted im perm ds ts2.
+Proof. exact md_match_unsorted_refuted. Qed.
+Print Assumptions C08_match_decoy_unsorted_refuted.
+
+Definition ex_md_AB : str := [65; 66]%Z.
+Definition ex_md_BA : str := [66; 65]%Z.
+Example C08_ex_match_decoy :
+  md_match true [1; 0] [ex_md_BA] [ex_md_AB; ex_md_BA] = Ok [(ex_md_BA, ex_md_AB)] /\
+  md_match true [1; 0] [ex_md_BA] [ex_md_BA; ex_md_AB] = Ok [(ex_md_BA, ex_md_AB)] /\
+  md_match_unsorted true [1; 0] [ex_md_BA] [ex_md_AB; ex_md_BA] = Ok [(ex_md_BA, ex_md_AB)] /\
+  md_match_unsorted true [1; 0] [ex_md_BA] [ex_md_BA; ex_md_AB] = Ok [(ex_md_BA, ex_md_BA)].
+Proof. vm_compute. repeat split; reflexivity. Qed.
